@@ -45,6 +45,7 @@ InitX == [ph |-> "pre",          \* pre | entering | rollback | body | exiting |
           pendC |-> FALSE,       \* cancellation hit while waiting for spawned tasks
           lostC |-> FALSE,       \* ... but the group was already aborting (stdlib absorbs it)
           cancelled |-> FALSE,   \* P has been cancelled from outside (at most once)
+          early |-> {},          \* ghost: spawned tasks that had already ended when P was cancelled
           started |-> FALSE,     \* the body started
           out |-> "none"]        \* what left the block
 
@@ -102,7 +103,10 @@ Run(r) ==
          IF Exiting(r) # {} THEN r ELSE [r EXCEPT !.ph = "post", !.out = r.cause]
     [] r.ph = "exiting" ->
          IF Exiting(r) # {} THEN r
-         ELSE LET r2 == IF r.exc # "return" THEN AbortChildren(r) ELSE r IN
+         ELSE \* the task group is left with the failure in flight - the body's, or that of the disposables'
+              \* exit (an error, or a cancellation that hit it): its remaining tasks are cancelled, not awaited
+              LET failing == r.exc # "return" \/ (Bug # "exit_failure_awaits_members" /\ (r.dC \/ XFailed(r) # {}))
+                  r2 == IF failing THEN AbortChildren(r) ELSE r IN
               Run([r2 EXCEPT !.ph = "waiting"])
     [] r.ph = "waiting" ->
          IF Running(r) # {} THEN r ELSE [r EXCEPT !.ph = "post", !.out = Outcome(r)]
@@ -160,7 +164,7 @@ ChildFail(u) ==
 (* P is cancelled from outside, at any suspension point of enter / body / exit *)
 Cancel ==
   /\ ~x.cancelled /\ x.ph \in {"entering", "body", "exiting", "waiting"}
-  /\ LET r0 == [x EXCEPT !.cancelled = TRUE] IN
+  /\ LET r0 == [x EXCEPT !.cancelled = TRUE, !.early = {u \in Ch : x.ch[u] \in {"done", "failed", "cancelled"}}] IN
      CASE x.ph = "entering" ->
             Step([r0 EXCEPT !.cause = "C",
                             !.den = [i \in D |-> IF x.den[i] = "entering" THEN "cancelled" ELSE x.den[i]]])
@@ -210,4 +214,9 @@ SurfaceCleanup ==
 (* C07 (for this single scope): an external cancellation is not swallowed by leaving the scope *)
 CancelNotLost ==
   (x.ph = "post" /\ x.cancelled /\ ~x.lostC) => x.out = "C"
+(* C07 / C06: ... and the tasks spawned into the scope are cancelled too, not awaited *)
+CancelAbortsMembers ==
+  (x.ph = "post" /\ x.cancelled /\ ~x.lostC) => \A u \in Ch : x.ch[u] = "done" => u \in x.early
+(* C06: when cleanup itself fails the remaining spawned tasks are cancelled rather than awaited *)
+NoWaitAfterFailure == x.ph = "waiting" => (x.exc = "return" /\ ~x.dC /\ XFailed(x) = {})
 =============================================================================
